@@ -294,6 +294,116 @@ func c03CanonCase(ctx *Ctx, v cty.Value) {
 	}
 }
 
+// c03LessMirror: setRules.Less re-stated through the public API (cty/set_internals.go:82-130, branch for branch)
+func c03LessMirror(x, y cty.Value) bool {
+	if x.RawEquals(y) {
+		return false
+	}
+	if y.IsNull() && !x.IsNull() {
+		return true
+	} else if x.IsNull() {
+		return false
+	}
+	if x.IsKnown() && !y.IsKnown() {
+		return true
+	} else if !x.IsKnown() {
+		return false
+	}
+	switch x.Type() {
+	case cty.String:
+		return x.AsString() < y.AsString()
+	case cty.Bool:
+		return y.True() || !x.True()
+	case cty.Number:
+		return x.AsBigFloat().Cmp(y.AsBigFloat()) < 0
+	}
+	return c03HashBytes(x) < c03HashBytes(y)
+}
+
+// c03SetWF: Payload.setWF through the public API: member hashes are the bucket ids (checked by the
+// layout correspondence elsewhere, here: Hash does not panic), members wholly known, mark-free,
+// quotable, integer numbers; pairwise not RawEquals; the mirrored Less is a strict total order.
+func c03SetWF(s cty.Value) bool {
+	ms := s.AsValueSlice()
+	for _, m := range ms {
+		ints, quot := true, true
+		c03Walk(m, &ints, &quot)
+		if !ints || !quot || !m.IsWhollyKnown() || m.ContainsMarked() {
+			return false
+		}
+	}
+	n := len(ms)
+	for i := 0; i < n; i++ {
+		if c03LessMirror(ms[i], ms[i]) {
+			return false
+		}
+		for j := 0; j < n; j++ {
+			if i != j && ms[i].RawEquals(ms[j]) {
+				return false
+			}
+			if i != j && !c03LessMirror(ms[i], ms[j]) && !c03LessMirror(ms[j], ms[i]) {
+				return false
+			}
+			for k := 0; k < n; k++ {
+				if c03LessMirror(ms[i], ms[j]) && c03LessMirror(ms[j], ms[k]) && !c03LessMirror(ms[i], ms[k]) {
+					return false
+				}
+			}
+		}
+	}
+	return true
+}
+
+// c03SetEqualsCases: on well-formed set values of set-free members Equals is RawEquals and Equals-true
+// values hash alike (C03.equals_eq_rawEquals_sets, C03.equals_equiv_sets).
+func c03SetEqualsCases(ctx *Ctx, vals []cty.Value) {
+	t := vals[0].Type()
+	if !t.IsSetType() || !c03TyCapFree(t) {
+		return
+	}
+	plain := c03TySetFree(t.ElementType())
+	wf := make([]bool, len(vals))
+	for i, v := range vals {
+		if v.IsNull() || !v.IsKnown() || v.IsMarked() {
+			continue
+		}
+		ok := false
+		if pn, _ := try(func() { ok = c03SetWF(v) }); pn {
+			continue
+		}
+		wf[i] = ok
+		ctx.Add("c03.setwf", b01(ok), encVal(v))
+		ctx.Tag(fmt.Sprintf("d03b:setwf elemSetFree=%s wf=%s members=%d", b01(plain), b01(ok), v.LengthInt()))
+	}
+	if !plain {
+		return
+	}
+	for i := range vals {
+		for j := range vals {
+			if !wf[i] || !wf[j] {
+				continue
+			}
+			x, y := vals[i], vals[j]
+			eq := c03EqualsTrue(x, y)
+			var raw bool
+			if pn, _ := try(func() { raw = x.RawEquals(y) }); pn {
+				continue
+			}
+			ctx.Eval("d03b setequals "+encVal(x)+" "+encVal(y), x.LengthInt() >= 1 && i != j)
+			if eq != raw {
+				ctx.Fail(Failure{Site: "d03b-set-equals", Sig: "equals-differs-from-rawequals-on-wellformed-sets",
+					What:  "two well-formed set values (members wholly known, integers, pairwise different, Less total) are Equals but not RawEquals or the reverse — contradicts C03.equals_eq_rawEquals_sets",
+					Input: encVal(x) + " " + encVal(y), GoLit: c03Lits(x, y), Outcome: fmt.Sprintf("Equals %v RawEquals %v", eq, raw)})
+			}
+			if eq && c03HashBytes(x) != c03HashBytes(y) {
+				ctx.Fail(Failure{Site: "d03b-set-equals", Sig: "equal-wellformed-sets-hash-differently",
+					What:  "two well-formed set values that are Equals have different hash bytes — contradicts C03.equals_equiv_sets",
+					Input: encVal(x) + " " + encVal(y), GoLit: c03Lits(x, y), Outcome: encStr(c03HashBytes(x)) + " vs " + encStr(c03HashBytes(y))})
+			}
+		}
+	}
+}
+
 // c03D03bPool: called for every pool the value half judges.
 func c03D03bPool(ctx *Ctx, p c03Pool) {
 	n := len(p.vals)
@@ -304,6 +414,7 @@ func c03D03bPool(ctx *Ctx, p c03Pool) {
 		return
 	}
 	vals := p.vals[:n]
+	c03SetEqualsCases(ctx, vals)
 	setFree := c03TySetFree(vals[0].Type())
 	hb := make([]string, n)
 	clean := true
